@@ -86,17 +86,38 @@ Theorem C09_strict_sub_liberal : forall p u d, strict_reach p u d -> liberal_rea
 Proof. exact strict_sub_liberal. Qed.
 Print Assumptions C09_strict_sub_liberal.
 
-(* the intended statement (guard upper_ok); proved so far for stage 1 only, decided by the
-   differential check for the rest (loops, with, try/except) *)
-Definition C09_reported_sub_liberal_upper_ok_statement : Prop :=
-  forall p u d, upper_ok p = true -> In d (reported p u) -> liberal_reach p u d.
+(* the upper bound at full strength is refuted by the faithful model (precision only; replayed
+   on the real code: known finding C09-imprecise-reaching) *)
+Definition C09_reported_sub_liberal_full_statement : Prop :=
+  forall p u d, In d (reported p u) -> liberal_reach p u d.
 
-(* stage 1: every program built from assignments, uses, calls, pass, return, raise and if/else
-   without dead code (upper1_ok = upper_ok && flat_b) *)
+Theorem C09_reported_sub_liberal_refuted :
+  upper_ok w_upper = false /\ In 2 (reported w_upper 7) /\ ~ liberal_reach w_upper 7 2.
+Proof. exact w_upper_facts. Qed.
+Print Assumptions C09_reported_sub_liberal_refuted.
+
+(* For every function body of the grammar that satisfies upper_ok (no break/continue, no loop
+   else clause, no `while True`, no try-finally, no dead code, try bodies not empty) -- any
+   nesting of assignments, uses, calls, return, raise, if/else, while/for, suppressing and
+   non-suppressing with, try/except/else -- every reported definition (and the unbound state)
+   reaches the use along a liberal path. *)
 Theorem C09_reported_sub_liberal_partial : forall p u d,
-  upper1_ok p = true -> In d (reported p u) -> liberal_reach p u d.
-Proof. exact reported_sub_liberal_flat. Qed.
+  upper_ok p = true -> In d (reported p u) -> liberal_reach p u d.
+Proof. exact reported_sub_liberal. Qed.
 Print Assumptions C09_reported_sub_liberal_partial.
+
+(* ... hence a name bound on every liberal path is not reported as possibly undefined *)
+Theorem C09_bound_name_not_possibly_undefined_partial : forall p u,
+  upper_ok p = true -> (forall d, liberal_reach p u d -> d <> UN) -> possibly_undefined p u = false.
+Proof. exact bound_is_not_possibly. Qed.
+Print Assumptions C09_bound_name_not_possibly_undefined_partial.
+
+(* the upper guard is satisfiable together with the lower one by a non-trivial program
+   (if + loop + try/except inside a suppressing with would violate nothing): w_ok has a loop else *)
+Example C09_upper_guard_inhabited :
+  upper_ok w_up_ok = true /\ lower_ok w_up_ok = true /\ reported w_up_ok 9 = [2; 3; 1; 0].
+Proof. exact w_up_ok_facts. Qed.
+Print Assumptions C09_upper_guard_inhabited.
 
 (* ---- the source still has the shape the model was written for.  PV.Gen.Scopes is regenerated
    on every run from stacked_scopes.py (FunctionScope.subscope, loop_scope, get_combined_scope,
